@@ -1471,11 +1471,9 @@ def job_encdec(part, job, fg):
             def valid(a, ref=ref, G=G):
                 return None if isinstance(a, G) and ref.is_reduced(tuple(int(c) for c in a.value)) else \
                     'not a reduced primitive form of the discriminant'
-            mmax = (math.isqrt(-D) // 2) // G.gap - 1          # (m+1)*gap <= isqrt(-D)/2
-            while (mmax + 2) * G.gap <= math.isqrt(-D) / 2:
-                mmax += 1
-            while mmax >= 0 and (mmax + 1) * G.gap > math.isqrt(-D) / 2:
-                mmax -= 1
+            # admissible messages per the assert in encode(): (m+1)*gap <= isqrt(-D)/2 (float division there);
+            # the left side is an integer, so this is m+1 <= floor(bound) // gap
+            mmax = int(math.isqrt(-D) / 2) // G.gap - 1
             encdec(part, job, 'Cl', f'Cl(l={l}, D={D})', G, message_alphabet(mmax, dense), valid)
 
 
@@ -1524,12 +1522,13 @@ def jobs(tier, seed):
     js.append(dict(kind='kummer', tier=tier, coords='affine'))
     js.append(dict(kind='encdec', tier=tier, family='QR', ls=[16, 20, 32, 64] + ([] if q else [128, 768])))
     js.append(dict(kind='encdec', tier=tier, family='SG'))
-    js.append(dict(kind='encdec', tier=tier, family='HC', lo=0, hi=4))
-    js.append(dict(kind='encdec', tier=tier, family='HC', lo=4, hi=8))
+    js.append(dict(kind='encdec', tier=tier, family='HC', lo=0, hi=8))
     js.append(dict(kind='encdec', tier=tier, family='Cl', ls=[32, 36, 40, 64] + ([] if q else [48, 128, 256])))
     # longest first
     weight = {'builtin': 0, 'kummer': 0, 'hc': 1, 'E': 2, 'W': 2}
     js.sort(key=lambda j: (weight.get(j['kind'], 3), -j.get('p', 0)))
+    for i, j in enumerate(js):
+        j['index'] = i
     return js
 
 
@@ -1565,7 +1564,20 @@ def run_job(job):
         job_kummer(part, job, fg)
     elif kind == 'encdec':
         job_encdec(part, job, fg)
+    # several jobs can report the same key; the parent keeps the report of the lowest job index (determinism)
+    part.note('viol_candidates', [[v['key'], job.get('index', 0), v['what'], v['detail']] for v in part.violations])
     return part
+
+
+def coverage_extra(tier, seed, total):
+    best = {}
+    for key, idx, what, detail in total.notes.pop('viol_candidates', []):
+        if key not in best or idx < best[key][0]:
+            best[key] = (idx, what, detail)
+    for v in total.violations:
+        if v['key'] in best:
+            _, v['what'], v['detail'] = best[v['key']]
+    return None
 
 
 def replay(case):
@@ -1573,7 +1585,9 @@ def replay(case):
     job = dict(case['job'])
     if case.get('only'):
         job['only'] = case['only']
+    job.pop('index', None)
     part = run_job(job)
+    part.notes.pop('viol_candidates', None)
     if case.get('key'):
         part.violations = [v for v in part.violations if v['key'] == case['key']]
     return part
